@@ -224,6 +224,11 @@ def load_from_source(
             else:
                 # an in-memory text stream (io.StringIO) has no binary buffer underneath
                 buf = BytesIO(source.read().encode('utf-8'))
+                # like the other open sources, the caller's stream is left rewound
+                try:
+                    source.seek(0)
+                except (AttributeError, ValueError, UnsupportedOperation):
+                    pass
             source_as_file = source = buf
         else:
             source_as_file = source
